@@ -81,7 +81,8 @@ func (t *recRouteTable) ReadRoutesFromKernel(string) ([]routetable.Target, error
 	return nil, nil
 }
 
-// fakeNL: the host has one NIC, eth0, that carries every address the local node may announce.
+// fakeNL: the host has one NIC, eth0, that carries every address the local node may announce
+// (every host address of the universe).
 // Only LinkList/AddrList are reachable from OnUpdate/CompleteDeferredWork (the device-sync goroutines
 // are not started); anything else would nil-panic, which the harness reports.
 type fakeNL struct {
@@ -102,13 +103,16 @@ func (fakeNL) AddrList(link netlink.Link, family int) ([]netlink.Addr, error) {
 	}
 	var out []netlink.Addr
 	seen := map[string]bool{}
-	for _, cidr := range nodeAddrCands[me] {
-		p := netip.MustParsePrefix(cidr)
-		if seen[p.Addr().String()] {
-			continue
+	// (the local node may, in a history, be given any address of the universe)
+	for _, n := range nodeNames {
+		for _, cidr := range nodeAddrCands[n] {
+			p := netip.MustParsePrefix(cidr)
+			if seen[p.Addr().String()] {
+				continue
+			}
+			seen[p.Addr().String()] = true
+			out = append(out, netlink.Addr{IPNet: &net.IPNet{IP: net.ParseIP(p.Addr().String()).To4(), Mask: net.CIDRMask(p.Bits(), 32)}})
 		}
-		seen[p.Addr().String()] = true
-		out = append(out, netlink.Addr{IPNet: &net.IPNet{IP: net.ParseIP(p.Addr().String()).To4(), Mask: net.CIDRMask(p.Bits(), 32)}})
 	}
 	return out, nil
 }
